@@ -21,6 +21,7 @@ def run(ctx):
         ctx.guard("C06", "traits", lambda: convert.trait_forms(ctx, prog))
         ctx.guard("C06", "limit", lambda: normal.run_limit_agreement(ctx, prog))
         ctx.guard("C06", "isnorm", lambda: normal.is_normalized_both(ctx, prog))
+        ctx.guard("C06", "complete", lambda: fields.dest_complete(ctx, prog, scope=r"hash_dual::FuzzyHashDualData|FuzzyHashData::<[^>]*>::(normalize|clone_normalized|from_raw_form)", floor=1))
         ctx.guard("C06", "capacity", lambda: parser.capacity_after_collapse(ctx, prog))
         ctx.guard("C06", "summaries", lambda: summary.check(ctx, prog, '::normalize|::is_normalized|::clone_normalized|verify_block_hash', floor=2))
         if c == "unchecked":
